@@ -1091,10 +1091,13 @@ class CircuitTemplate(AbstractBaseTemplate):
         hierarchies.
 
         """
-        edges = self.edges
+        # work on copies: collecting the edges must not extend or rewrite the edge list (or the attribute
+        # dictionaries) of the template itself
+        edges = list(self.edges)
         for c_scope, c in self.circuits.items():
             edges_tmp = c.collect_edges()
             for svar, tvar, template, edge_dict in edges_tmp:
+                edge_dict = dict(edge_dict)
                 for key, val in edge_dict.copy().items():
                     if type(val) is str and val != 'source':
                         edge_dict[key] = f"{c_scope}/{val}"
